@@ -347,6 +347,9 @@ def finalize(agg):
             out.append(f'monitor {k} never evaluated')
     if c.get('frozen_checks', 0) == 0:
         out.append('frozen-state monitor never compared a finished step')
+    for k, why in (('forced_continuations', 'no forced continuation reached the real CheckConvergence'), ('cc_runs_past_budget', 'no block decided by CheckConvergence ran past the iteration budget')):
+        if c.get(k, 0) == 0:
+            out.append(why)
     return out
 
 
